@@ -54,6 +54,8 @@ def gen_method(rng, big=False):
         else:
             pays.append(("fpay", rng.choice((1, 2, 4, 8)), rng.randrange(0, 7)))
             body.append(("fill", ("pay", len(pays) - 1)))
+    # the payloads usually come last; in a third of the methods the code goes on behind them (the body jumps over them)
+    tail_after = bool(pays) and rng.random() < 0.33
     body.append(("exit", 0))
     items = list(body)
     payidx = []
@@ -62,6 +64,15 @@ def gen_method(rng, big=False):
             items.append(("align",))
         payidx.append(len(items))
         items.append(p)
+    if tail_after:
+        t0 = len(items)
+        items[nb] = ("goto", rng.choice((2, 3)), ("i", t0))
+        items.append(("plain", rng.choice((1, 2))))
+        items.append(("if", rng.random() < 0.5, ("i", rng.randrange(0, nb))))
+        items.append(("plain", 1))
+        if rng.random() < 0.5:
+            items.append(("goto", 1, ("i", t0 + 2)))
+        items.append(("exit", rng.randrange(3)))
     # resolve ("pay", k) references to item indices
     fixed = []
     for it in items:
@@ -189,6 +200,8 @@ def observe(methods):
             return -1 if t == "Ljava/lang/Throwable;" else int(t[6:-1]) if t.startswith("Lexc/E") else -99
         blocks = []
         for bb in ma.get_basic_blocks().get():
+            next(iter(bb.get_instructions()), None)          # a look at the head of the block, given up at once
+        for bb in ma.get_basic_blocks().get():
             ea = bb.get_exception_analysis()
             exc = None
             if ea is not None:
@@ -196,7 +209,9 @@ def observe(methods):
             spec = [[idx, (ioff.get(id(v)) if v is not None else None)] for idx, v in sorted(bb.special_ins.items())]
             blocks.append([bb.get_start(), bb.get_end(), bb.get_nb_instructions(),
                            [[c[0], c[1], c[2].get_start()] for c in bb.childs],
-                           [[c[0], c[1], c[2].get_start()] for c in bb.fathers], exc, spec])
+                           [[c[0], c[1], c[2].get_start()] for c in bb.fathers], exc, spec,
+                           [sum(1 for _ in bb.get_instructions()), sum(i.get_length() for i in bb.get_instructions()),
+                            bb.get_last().get_length() if bb.get_nb_instructions() else None]])
         out.append([blocks, _xref_offsets(dx, ma)])
     return out
 
@@ -260,7 +275,7 @@ def coq_input(case):
 
 
 def canon(res):
-    return [blocks for blocks, xo in res]
+    return [[b[:7] for b in blocks] for blocks, xo in res]
 
 
 # ---------------------------------------------------------------------------------------------------------- streams
@@ -346,6 +361,8 @@ def check_partition(f, blocks, xo):
         inside = [o for o in ioffs if b[0] <= o < b[1]]
         if b[0] not in ioffs or (b[1] not in ioffs and b[1] != total) or len(inside) != b[2] or b[2] == 0:
             return "block %d..%d does not consist of whole instructions (%d reported, %d inside)" % (b[0], b[1], b[2], len(inside))
+        if len(b) > 7 and (b[7][0] != len(inside) or b[7][1] != b[1] - b[0]):
+            return "block %d..%d: get_instructions() yields %d instructions of %d bytes, the block holds %d instructions" % (b[0], b[1], b[7][0], b[7][1], len(inside))
         for o in inside[:-1]:
             if successors(f, o) is not None:
                 return "the %s at %d is not the last instruction of its block %d..%d" % (f["by_off"][o][1][0], o, b[0], b[1])
